@@ -181,6 +181,10 @@ func checkFlow(p flowParams, x *verifkit.Exec) []verifkit.Violation {
 		case isSource(e.Comp) && e.Kind == "emit":
 			ek := epKey{e.Comp, epoch[e.Comp]}
 			emitted[ek] = append(emitted[ek], e.Idx)
+		case isSource(e.Comp) && e.Kind == "ack" && e.Idx == -1:
+			// the engine handed an EMPTY position to the source plugin (and stored it): only a source that emitted a record
+			// without a position can cause this; the engine must refuse such a record instead
+			a.bad("C09/empty-position-acknowledged/"+p.Engine, "source %s was acknowledged an EMPTY position (event #%d): the record without a position was accepted, acked and its empty position persisted", e.Comp, e.Seq)
 		case isSource(e.Comp) && e.Kind == "ack":
 			ek := epKey{e.Comp, epoch[e.Comp]}
 			acked[ek] = append(acked[ek], e.Idx)
